@@ -378,10 +378,10 @@ CLAIMED["C12"] = dict(
          "eigenvalues, abs -- delivers, for every input matrix, factors whose documented product m = u^T diag(s) v / "
          "u^T diag(s) u / z^dagger diag(w) z reduces identically to the input, that are products of unitary factors, with "
          "non-negative values where documented and in the documented order (ascending, |w| for the hermitian routine), for "
-         "each of the instantiations called by the MSSM and THDM classes; and the models use only these routines.",
+         "each of the instantiations called by the MSSM and THDM classes; and the models use only these routines. (R6) Error bounds: every value stored through an *_errbd pointer is a product of positive constants and non-negative norms, and disna clamps all reciprocal condition numbers from below by a positive threshold, so the bounds are non-negative and finite also for degenerate spectra.",
     note=TRUST + "NOT decided: that Eigen's iterative/closed-form solvers meet their contracts in floating point "
-         "(accuracy, exactly degenerate, rank-deficient, hierarchical matrices), and the error-bound outputs -- these are "
-         "numerical and out of reach of a sound static argument here. The complex-symmetric Takagi variant (matrix square "
+         "(accuracy, exactly degenerate, rank-deficient, hierarchical matrices) and the size of the error bounds -- these are "
+         "numerical. Of the error bounds only the sign and the positivity of their divisors are decided (R6). The complex-symmetric Takagi variant (matrix square "
          "root) is not instantiated by the models and is not analysed.",
     ref="10.6")
 
